@@ -156,3 +156,7 @@ func (r *vfxRemote) run(services wire.ServiceFlag, height int32) {
 // vfxInBurst switches the in-burst deviations (DESIGN 3.7) of the root
 // package's component harnesses on: the second configuration of each.
 var vfxInBurst bool
+
+// vfxSyncPre selects the configuration "one preemption at a synchronisation
+// point per execution" (DESIGN 3.9) of a component harness.
+var vfxSyncPre bool
